@@ -80,7 +80,7 @@ def build_discipline(t, ctx):
 
     kind = t.pick(DISC_KINDS, "disc_kind")
     grammar = t.pick(["JSONGrammar", "SimpleGrammar"], "grammar")
-    cache = t.pick(CACHES, "cache")
+    cache = CACHES[t.weighted([3, 3, 1, 1, 3], "cache")]  # (both MemoryFullCache variants end at a known finding)
     prev = Discipline.default_grammar_type
     Discipline.default_grammar_type = Discipline.GrammarType.JSON if grammar == "JSONGrammar" else Discipline.GrammarType.SIMPLE
     try:
